@@ -98,7 +98,15 @@ impl Scheduler {
 
             let active = execution.threads.active_id();
 
-            let mut queued_spawn = Self::tick(&mut threads[active.as_usize()], execution);
+            let mut queued_spawn = match std::panic::catch_unwind(std::panic::AssertUnwindSafe(|| {
+                Self::tick(&mut threads[active.as_usize()], execution)
+            })) {
+                Ok(queued_spawn) => queued_spawn,
+                Err(failure) => {
+                    Self::finish_suspended_unwinds(&mut threads, execution, active.as_usize());
+                    std::panic::resume_unwind(failure);
+                }
+            };
 
             while let Some(th) = queued_spawn.pop_front() {
                 assert!(threads.len() < self.max_threads);
@@ -108,6 +116,48 @@ impl Scheduler {
 
                 threads.push(spawn_thread(f, stack_size));
                 threads[thread_id].resume();
+            }
+        }
+    }
+
+    /// The execution has failed. A thread that had failed before and handed
+    /// over from a destructor in the middle of its unwind would stay suspended
+    /// there for good: the panic it is unwinding from would remain counted by
+    /// the OS thread (`std::thread::panicking()` stays `true` after the model
+    /// has returned). Such threads are resumed until their unwind is complete,
+    /// as long as they can run; their own panic is dropped, the failure that
+    /// is reported is the one that ended the execution.
+    fn finish_suspended_unwinds(threads: &mut [Thread], execution: &mut Execution, failed: usize) {
+        for index in 0..threads.len() {
+            if index == failed || threads[index].is_done() {
+                continue;
+            }
+
+            loop {
+                let thread = &execution.threads[thread_id(execution, index)];
+
+                if !thread.suspended_unwind || !thread.is_runnable() {
+                    break;
+                }
+
+                execution.threads.set_active(Some(thread_id(execution, index)));
+
+                let res = std::panic::catch_unwind(std::panic::AssertUnwindSafe(|| {
+                    // Threads spawned by a destructor are not started
+                    std::mem::forget(Self::tick(&mut threads[index], execution));
+                }));
+
+                if res.is_err() || threads[index].is_done() {
+                    // The unwind reached the top of the thread
+                    break;
+                }
+
+                if execution.threads.active_id().as_usize() == index {
+                    continue;
+                }
+
+                // The thread has handed over again: it cannot finish
+                break;
             }
         }
     }
@@ -174,6 +224,10 @@ fn spawn_thread(f: Box<dyn FnOnce()>, stack_size: Option<usize>) -> Thread {
     g.resume();
     g.set_para(Some(f));
     g
+}
+
+fn thread_id(execution: &Execution, index: usize) -> crate::rt::thread::Id {
+    crate::rt::thread::Id::new(execution.id, index)
 }
 
 unsafe fn transmute_lt<'a, 'b>(state: &'a RefCell<State<'b>>) -> &'a RefCell<State<'static>> {
